@@ -28,6 +28,7 @@ func registerC04() {
 			"reference verdict. Family vendor-bursts: small files whose file_id names every (manufacturer, product) pair drawn from the integer values that occur in the library's own hand-written sources (literals and named constants, read from the tree under test at check time), each corrupted at single bits of its record data: Decode and CheckIntegrity must both return an error. Family large-bursts: model streams of 5-120 KB and the device files up to 400 KB, each corrupted at 400 (quick) / 3000 (thorough) PRNG bit positions (concentrated around the decoder's 4096-byte buffer boundaries, record boundaries and the trailing CRC) with PRNG burst patterns of span <= 16. Family accepted: every output of a successful Encode of an API-built File (into a plain buffer, a file on disk, a bytes.Buffer already holding data, a bufio.Writer, a seekable in-memory writer; 12- and 14-byte headers; one file of 67 MB - thorough: also 135 and 270 MB) must pass CheckIntegrity; streams Decode accepts (model, device, Encode output, model streams padded to data sizes at and around multiples of the 4096-byte read buffer, and streams whose header lies about the data size - 0, 1, true +-1 ... - with and without trailer) must pass CheckIntegrity. A case is one corrupted file; distinct by construction",
 		Assume:        []string{"'contiguous bits' are contiguous in the order the reflected CRC consumes them (LSB first); any error counts as detection"},
 		MinNontrivial: 20000,
+		Families386:   []string{"headers", "vendor-bursts", "large-bursts"},
 		Families: []lib.Family{
 			{Name: "bursts", N: func(t string) uint64 { return uint64(c04NumBase) * 2048 }, Run: c04Burst, Batch: 64},
 			{Name: "headers", N: func(t string) uint64 { return 2 * 5 * 64 }, Run: c04Headers},
